@@ -473,6 +473,13 @@ func (g *Gen) havocLoc(env *Env, le Expr) error {
 			}
 			h := g.arrHeap(sl.Elem())
 			na := g.fresh("arr", "(Array "+g.idxSort()+" "+g.sortOf(sl.Elem())+")")
+			oldArr := fmt.Sprintf("(select %s (sl.ref %s))", g.heapGet(g.cur, h), v.S)
+			// only the elements of the slice itself, s[0] .. s[len(s)-1], may change: the rest of the backing array keeps its
+			// contents (functions under contract are held to this by their frame obligation, see checkFrame)
+			is := g.idxSort()
+			lo := "(sl.off " + v.S + ")"
+			hi := g.add(lo, "(sl.len "+v.S+")")
+			g.assume(fmt.Sprintf("(forall ((j %s)) (! (=> (or %s %s) (= (select %s j) (select %s j))) :pattern ((select %s j))))", is, g.lt("j", lo), g.le(hi, "j"), na, oldArr, na))
 			g.heapSet(g.cur, h, fmt.Sprintf("(store %s (sl.ref %s) %s)", g.heapGet(g.cur, h), v.S, na))
 			return nil
 		}
